@@ -156,6 +156,7 @@ Definition param_json (p : param) : string :=
   | PField (n, None) => jobj [("field", jstr n)]
   | PField (n, Some i) => jobj [("field", jstr n); ("idx", string_of_Z i)]
   | PNoneP => "null"
+  | PSInt z => string_of_Z z
   end.
 
 Definition opt_nat_json (o : option nat) : string := match o with Some n => nat_str n | None => "null" end.
